@@ -33,9 +33,10 @@ cache clears, or through an object built on the other arm, answers as the twin
 baseline), ``flip-during-call-agrees`` (a call during which the switch moved
 answers as the baseline).
 
-Sites in ``PENDING`` are known divergences of the pinned tree awaiting a
-known-findings entry: they are executed and counted (``pending:<site>``,
-``pending-diverged:<site>``) but not checked. Sites in ``PROBE_ONLY`` are inputs
+Divergences of the pinned tree that are recorded rather than repaired are listed
+in /verif/known_findings.json by (invariant, site): the check still evaluates
+them, the runner announces them as KNOWN-FINDING, and the operation is left out
+of histories and thread runs (it has no baseline). Sites in ``PROBE_ONLY`` are inputs
 the documented caller never passes: executed, counted, never asserted.
 """
 
@@ -55,17 +56,6 @@ from btcsim.seams.rng import SimRng
 P = "C04"
 N = H.N
 
-# PENDING-FINDING: genuine divergences of the pinned tree, reported to the coordinator
-PENDING = {
-    "silent_payments.scan_transaction_outputs/off-curve-taproot-output",
-    "silent_payments.scan_transaction_outputs/no-outputs",
-    "taproot.output_pubkey/hybrid-key",
-    "dsa.verify_/hybrid-key",
-    "dsa.assert_as_valid_/hybrid-key",
-    "dsa.sign_/hybrid-key",
-    "dsa.sign/hybrid-key",
-    "dh.diffie_hellman/point-infinity",
-}
 # inputs outside the documented caller contract: the arms are probed, not judged
 PROBE_ONLY = {"silent_payments.scan_transaction_outputs/odd-y-taproot-input-key"}
 
@@ -151,18 +141,18 @@ def twin(ctx: Ctx, op: Op) -> Obs | None:
     if obs[True].value is True or (obs[True].tag.startswith("ok") and op.api.startswith("engine.")):
         ctx.probe("accepted:" + op.api)
     same = obs[True].tag == obs[False].tag
-    for kind, sites in (("pending", PENDING), ("probe-only", PROBE_ONLY)):
-        if op.site in sites:
-            ctx.probe(f"{kind}:{op.site}")
-            if not same:
-                ctx.probe(f"{kind}-diverged:{op.site}")
-            return None
-    ctx.check(
+    if op.site in PROBE_ONLY:
+        ctx.probe(f"probe-only:{op.site}")
+        if not same:
+            ctx.probe(f"probe-only-diverged:{op.site}")
+        return None
+    held = ctx.check(
         P, "arms-agree", same,
         lambda: f"{op.site} {op.note}: bindings -> {obs[True].tag} [{obs[True].text}], python -> {obs[False].tag} [{obs[False].text}]",
         site=op.site,
     )
-    return obs[True]
+    # a divergence listed in known_findings.json is counted by the runner and has no baseline to go on with
+    return obs[True] if held else None
 
 
 def need(ctx: Ctx, op: Op) -> Any:
@@ -580,7 +570,7 @@ def g_musig(ctx: Ctx) -> Op:
         Q = H.mult(prv[i])
         psig = {"psig-zero": bytes(32), "psig-n": H.b32(N), "psig-ff": b"\xff" * 32, "psig-bit-flip": psig[:7] + bytes([psig[7] ^ 16]) + psig[8:],
                 "psig-short": psig[1:], "psig-long": psig + b"\x00", "psig-of-another-signer": psigs[(i + 1) % n]}.get(cls, psig)
-        pn = {"pubnonce-off-curve": ox + pn[33:], "pubnonce-infinity": pn[:33] + bytes(33), "pubnonce-swapped-halves": pn[33:] + pn[:33], "pubnonce-short": pn[:65],
+        pn = {"pubnonce-off-curve": ox + pn[33:], "pubnonce-infinity": (pn[:33] + bytes(33), bytes(33) + pn[33:], bytes(66))[ch.draw(3, "musig.inf-half")], "pubnonce-swapped-halves": pn[33:] + pn[:33], "pubnonce-short": pn[:65],
               "pubnonce-negated": bytes([pn[0] ^ 1]) + pn[1:], "pubnonce-x-ge-p": b"\x02" + H.b32(H.P) + pn[33:]}.get(cls, pn)
         pk = {"foreign-signer-key": musig2.individual_pub_key(prv[i] % (N - 1) + 1), "signer-key-off-curve": ox, "signer-key-negated": bytes([pk[0] ^ 1]) + pk[1:],
               "signer-key-uncompressed": H.sec(Q, False), "signer-key-hybrid": bytes([6 + (Q[1] & 1)]) + H.sec(Q, False)[1:], "signer-key-xonly": pk[1:]}.get(cls, pk)
@@ -992,7 +982,7 @@ CHECKS = {
             "ElligatorSwift create/encode are random by contract: they are observed through decode_var",
             "BIP340 aux drawn by the library is pinned to one value for both arms; blinding and batch coefficients draw freely",
             "pre-emption only at first-visit line boundaries of btclib frames; calls into the bindings are atomic (GIL)",
-            "sites listed in PENDING (reported divergences) and PROBE_ONLY (odd-y taproot input keys) are executed and counted, not judged",
+            "sites in PROBE_ONLY (odd-y taproot input keys: outside the documented caller contract) are executed and counted, not judged",
         ],
     },
 }
